@@ -331,32 +331,14 @@ func (p *Program) mwExpandFacts(fs []Fact) []Fact {
 		if !ok {
 			return
 		}
-		var cand []factSet
-		for i, e := range ph.Edges {
-			if b, isConst := constBool(e); isConst && b != f.Pol {
-				continue // this edge yields the opposite value
-			}
-			es := factSet{}
-			for _, ef := range p.FactsOnEdge(ph.Block().Preds[i], ph.Block()) {
-				es[ef.key] = ef
-			}
-			if _, isConst := constBool(e); !isConst {
-				vf := p.mkFact(e, f.Pol)
-				opp := "T:" + vf.key[2:]
-				if vf.Pol {
-					opp = "F:" + vf.key[2:]
-				}
-				if _, contradiction := es[opp]; contradiction {
-					continue // on this edge the value is known to be the opposite: the edge cannot have been taken
-				}
-				es[vf.key] = vf
-			}
-			cand = append(cand, es)
-		}
+		cand := p.mwPhiEdgeFacts(ph, f.Pol)
 		if len(cand) == 0 {
 			return
 		}
-		common := cand[0]
+		common := factSet{}
+		for k, v := range cand[0] {
+			common[k] = v
+		}
 		for _, c := range cand[1:] {
 			for k := range common {
 				if _, ok := c[k]; !ok {
@@ -374,6 +356,77 @@ func (p *Program) mwExpandFacts(fs []Fact) []Fact {
 	return out.list()
 }
 
+// mwPhiEdgeFacts: the boolean phi is known to have evaluated to pol; returns, per incoming edge that
+// can have produced pol, the facts that held on that edge (plus "edge value == pol" for non-constant
+// edge values). Edges on which the value is known to be the opposite are infeasible and left out.
+func (p *Program) mwPhiEdgeFacts(ph *ssa.Phi, pol bool) []factSet {
+	if b, isBasic := ph.Type().Underlying().(*types.Basic); !isBasic || b.Info()&types.IsBoolean == 0 {
+		return nil
+	}
+	var cand []factSet
+	for i, e := range ph.Edges {
+		if i >= len(ph.Block().Preds) {
+			return nil
+		}
+		if b, isConst := constBool(e); isConst && b != pol {
+			continue // this edge yields the opposite value
+		}
+		es := factSet{}
+		for _, ef := range p.FactsOnEdge(ph.Block().Preds[i], ph.Block()) {
+			es[ef.key] = ef
+		}
+		if _, isConst := constBool(e); !isConst {
+			vf := p.mkFact(e, pol)
+			opp := "T:" + vf.key[2:]
+			if vf.Pol {
+				opp = "F:" + vf.key[2:]
+			}
+			if _, contradiction := es[opp]; contradiction {
+				continue // on this edge the value is known to be the opposite: the edge cannot have been taken
+			}
+			es[vf.key] = vf
+		}
+		cand = append(cand, es)
+	}
+	return cand
+}
+
+// mwHoldsCaseSplit: pred holds for the (expanded) facts, or the facts contain a materialised boolean
+// (`g := a || b; if g {…}` — a phi with several feasible incoming edges) and pred holds in each of
+// its cases, i.e. with the facts of each edge that can have produced the known value added. This is
+// the same disjunction `if a || b {…}` gives through two CFG edges into one block.
+func (p *Program) mwHoldsCaseSplit(fs []Fact, pred func([]Fact) bool, d int) bool {
+	ex := p.mwExpandFacts(fs)
+	if pred(ex) {
+		return true
+	}
+	if d > 3 {
+		return false
+	}
+	for i, f := range ex {
+		ph, ok := f.Cond.(*ssa.Phi)
+		if !ok {
+			continue
+		}
+		cands := p.mwPhiEdgeFacts(ph, f.Pol)
+		if len(cands) < 2 {
+			continue // a single feasible edge is already folded in by mwExpandFacts
+		}
+		rest := append(append([]Fact{}, ex[:i]...), ex[i+1:]...)
+		all := true
+		for _, es := range cands {
+			if !p.mwHoldsCaseSplit(append(es.list(), rest...), pred, d+1) {
+				all = false
+				break
+			}
+		}
+		if all {
+			return true
+		}
+	}
+	return false
+}
+
 // mwHoldsOnAllPaths: pred holds for the facts at b, or b is entered only through edges on each of
 // which pred holds (recursively). This is how disjunctive guards (`a || b`, two ifs jumping to the
 // same block) are recognised: the must-facts at the join contain neither disjunct.
@@ -387,7 +440,7 @@ func (p *Program) mwHoldsOnAllPaths(b *ssa.BasicBlock, pred func([]Fact) bool) b
 		case 3:
 			return false
 		}
-		if pred(p.mwExpandFacts(p.FactsAt(b))) {
+		if p.mwHoldsCaseSplit(p.FactsAt(b), pred, 0) {
 			state[b] = 2
 			return true
 		}
@@ -397,7 +450,7 @@ func (p *Program) mwHoldsOnAllPaths(b *ssa.BasicBlock, pred func([]Fact) bool) b
 		}
 		state[b] = 1
 		for _, pr := range b.Preds {
-			if pred(p.mwExpandFacts(p.FactsOnEdge(pr, b))) {
+			if p.mwHoldsCaseSplit(p.FactsOnEdge(pr, b), pred, 0) {
 				continue
 			}
 			if !walk(pr, d+1) {
@@ -603,4 +656,67 @@ func (p *Program) mwDynamicTargets(cc *ssa.CallCommon) []*ssa.Function {
 		}
 	}
 	return out
+}
+
+// ---------------------------------------------------------------------------------------------
+// Extracted helpers (see helpers_inline.go)
+
+// mwExpandResult: return cases in which result idx, when it is the result of an extracted
+// (inlinable) helper — `x := helper(...); return a, x, nil` — is replaced by the helper's own return
+// cases: the helper's returned value takes the place of the call and the facts of the helper's
+// return are added to those of the caller's return (the call dominates the return that uses its
+// value, and facts are never killed). Cases of other shapes are passed through unchanged.
+func (p *Program) mwExpandResult(cases []ReturnCase, idx int) []ReturnCase {
+	var out []ReturnCase
+	for _, rc := range cases {
+		if idx >= len(rc.Results) || rc.Results[idx] == nil {
+			out = append(out, rc)
+			continue
+		}
+		call, ri := asCall(rc.Results[idx])
+		var callee *ssa.Function
+		if call != nil {
+			callee = staticCallee(call.Common())
+		}
+		if callee == nil || callee == rc.Ret.Parent() || !p.inlinable(callee) {
+			out = append(out, rc)
+			continue
+		}
+		if ri < 0 {
+			ri = 0
+		}
+		n := 0
+		for _, hrc := range p.returnCases(callee) {
+			if (callee.Recover != nil && hrc.Ret.Block() == callee.Recover) || ri >= len(hrc.Results) {
+				continue
+			}
+			nrc := rc
+			nrc.Results = append([]ssa.Value{}, rc.Results...)
+			nrc.Results[idx] = hrc.Results[ri]
+			nrc.Facts = append(append([]Fact{}, rc.Facts...), hrc.Facts...)
+			out = append(out, nrc)
+			n++
+		}
+		if n == 0 {
+			out = append(out, rc)
+		}
+	}
+	return out
+}
+
+// mwThroughParam: a parameter of an extracted helper with a single static call site stands for the
+// argument passed there (followed transitively); other values are returned unchanged.
+func (p *Program) mwThroughParam(v ssa.Value) ssa.Value {
+	for i := 0; i < 4 && v != nil; i++ {
+		prm, ok := stripConv(v).(*ssa.Parameter)
+		if !ok {
+			break
+		}
+		arg := p.soleArgument(prm)
+		if arg == nil {
+			break
+		}
+		v = arg
+	}
+	return v
 }
